@@ -339,7 +339,7 @@ def do_replay(mod, prop, path):
     env["VERIF_SCRATCH_DIR"] = sdir
     env["TMPDIR"] = sdir
     try:
-        p = subprocess.run([build.PYTHON, "-m", "vlib.child", prop, "--replay", path],
+        p = subprocess.run([build.PYTHON, "-m", "vlib.child", prop, "--replay", os.path.abspath(path)],
                            env=env, cwd=sdir, timeout=3600)
         return p.returncode
     finally:
